@@ -388,6 +388,9 @@ def process_unit(unit, seed, want_canary=True, prop=None):
     open(path, 'w').write(text)
     out = dict(unit=unit, path=path, regions=regions, text=text)
     mods = modules_for(prop, text, regions)
+    if cfg.get('only_modules'):
+        mm0 = set(module_map(text).values())
+        mods = sorted(m for m in mm0 if any(m == o or m.startswith(o + '::') for o in cfg['only_modules']))
     out['modules'] = mods
     margs = '' if mods is None else ' '.join('--verify-module ' + m for m in mods)
     with cf.ThreadPoolExecutor(2) as ex:
@@ -521,7 +524,7 @@ def check_property(prop, tier, seed, replay=None):
     n_obl = len(obligations)
     n_dis = len([o for o in obligations if (o['unit'], o['function'], o['label']) not in failed_keys])
     # ------------------------------------------------ evidence
-    fn_under_contract = sorted({'%s::%s (%s)' % (r2.file, r2.key, r['unit']) for r in results for r2 in r['regions'] if r2.kind == 'fn' and (prop in r2.props or prop in ('C17', 'C18'))})
+    fn_under_contract = sorted({'%s::%s (%s)' % (r2.file, r2.key, r['unit']) for r in results for r2 in r['regions'] if r2.kind == 'fn' and (prop in r2.props or prop in ('C17', 'C18')) and (r['modules'] is None or module_map(r['text']).get(r2.out_line0, '') in r['modules'])})
     ex_log = []
     for r in results:
         for r2 in r['regions']:
